@@ -799,6 +799,162 @@ scenarios:
 	res.Eval("next-first-access", true)
 }
 
+// ---------------------------------------------------------------- steps without processors
+
+// plainSteps: a scenario of three requests that have no preprocessor (but the first), no
+// postprocessors and no assertion — the step only sends its request and reads the answer. The
+// answer to the middle step is scripted per shot: complete; complete with status 500 (nothing
+// asserts on it: the step has not failed); headers announcing 1000 bytes followed by a few bytes
+// and a close; a chunked body cut inside a chunk; connection closed before any answer. The last
+// three are transport errors: the step must be reported as failed and the third step not be sent.
+func plainSteps(res *vkit.Result, instances, shots int) {
+	tgt, err := vkit.NewHTTPTarget(false)
+	if err != nil {
+		res.Inconclusive(true, "target: %v", err)
+		return
+	}
+	defer tgt.Close()
+	kinds := []string{"complete", "status500", "body-cut-short", "chunk-cut-short", "closed-before-answer"}
+	var mu sync.Mutex
+	seen := map[int][]string{} // row → steps that arrived
+	tgt.Respond = func(rq *vkit.ReqRec, rw http.ResponseWriter, r *http.Request) {
+		row, _ := strconv.Atoi(r.Header.Get("X-Row"))
+		step := r.Header.Get("X-Step")
+		mu.Lock()
+		seen[row] = append(seen[row], step)
+		mu.Unlock()
+		kind := "complete"
+		if step == "b" {
+			kind = kinds[row%len(kinds)]
+		}
+		raw := func(text string) {
+			if hj, ok := rw.(http.Hijacker); ok {
+				if c, _, err := hj.Hijack(); err == nil {
+					_, _ = c.Write([]byte(text))
+					c.Close()
+				}
+			}
+		}
+		switch kind {
+		case "status500":
+			rw.WriteHeader(500)
+			_, _ = rw.Write([]byte("scripted failure status"))
+		case "body-cut-short":
+			raw("HTTP/1.1 200 OK\r\nContent-Type: text/plain\r\nContent-Length: 1000\r\n\r\nonly these bytes")
+		case "chunk-cut-short":
+			raw("HTTP/1.1 200 OK\r\nContent-Type: text/plain\r\nTransfer-Encoding: chunked\r\n\r\n64\r\nten bytes.")
+		case "closed-before-answer":
+			raw("")
+		default:
+			_, _ = rw.Write([]byte("a complete answer"))
+		}
+	}
+	base := fmt.Sprintf("/c15/plain-%d-%d", instances, shots)
+	var rows strings.Builder
+	for r := 0; r < shots; r++ {
+		fmt.Fprintf(&rows, "%d\n", r)
+	}
+	_ = vkit.WriteMemAt(base+".csv", []byte(rows.String()))
+	yaml := fmt.Sprintf(`variable_sources:
+  - type: "file/csv"
+    name: "rows"
+    file: %q
+    fields: ["id"]
+requests:
+  - name: "a"
+    method: "POST"
+    uri: "/plain/a"
+    headers: {"X-Step": "a", "X-Row": "{{.request.a.preprocessor.row.id}}"}
+    body: "a"
+    preprocessor:
+      mapping: {"row": "source.rows[next]"}
+  - name: "b"
+    method: "POST"
+    uri: "/plain/b"
+    headers: {"X-Step": "b", "X-Row": "{{.request.a.preprocessor.row.id}}"}
+    body: "b"
+  - name: "c"
+    method: "POST"
+    uri: "/plain/c"
+    headers: {"X-Step": "c", "X-Row": "{{.request.a.preprocessor.row.id}}"}
+    body: "c"
+scenarios:
+  - name: "plain"
+    weight: 1
+    min_waiting_time: 0
+    requests: ["a", "b", "c"]
+`, base+".csv")
+	_ = vkit.WriteMemAt(base+".yaml", []byte(yaml))
+	defer vkit.RemoveMem(base + ".csv")
+	defer vkit.RemoveMem(base + ".yaml")
+	pool := map[string]any{"id": "p", "ammo": map[string]any{"type": "http/scenario", "file": base + ".yaml", "limit": shots},
+		"result": map[string]any{"type": "discard"}, "gun": map[string]any{"type": "http/scenario", "target": tgt.Addr},
+		"rps": map[string]any{"type": "const", "ops": 5000, "duration": "300s"}, "startup": map[string]any{"type": "once", "times": instances}}
+	cs := map[string]any{"layer": "steps without processors", "instances": instances, "shots": shots, "answers_to_middle_step": kinds}
+	ec, err := vkit.DecodePools(map[string]any{"pools": []any{pool}})
+	if err != nil {
+		res.Violate("C15/plain/valid-description-rejected", fmt.Sprintf("description rejected: %v", err), cs)
+		return
+	}
+	aggr := &vkit.MockAggregator{}
+	ec.Pools[0].Aggregator = aggr
+	rr := vkit.RunEngine(ec, nil, 120*time.Second)
+	if rr.Hang || rr.Err != nil {
+		res.Violate("C15/plain/run", fmt.Sprintf("run failed: %v hang=%v", rr.Err, rr.Hang), cs)
+		return
+	}
+	wantOK, wantFail := map[string]int{}, map[string]int{}
+	mu.Lock()
+	defer mu.Unlock()
+	for r := 0; r < shots; r++ {
+		kind := kinds[r%len(kinds)]
+		broken := kind != "complete" && kind != "status500"
+		want := "a,b,c"
+		if broken {
+			want = "a,b"
+		}
+		if got := strings.Join(seen[r], ","); got != want {
+			sub := "order-or-multiplicity"
+			if broken && got == "a,b,c" {
+				sub = "continued-after-failure"
+			}
+			res.Violate("C15/plain/"+sub, fmt.Sprintf("shot %d: the answer to step b was %q; the target received steps [%s], want [%s]", r, kind, got, want), cs)
+		}
+		wantOK["plain.a"]++
+		if broken {
+			wantFail["plain.b"]++
+		} else {
+			wantOK["plain.c"]++
+			if kind == "complete" {
+				wantOK["plain.b"]++
+			}
+		}
+		res.Count("plain_shots_judged", 1)
+	}
+	gotOK, gotFail, got500 := map[string]int{}, map[string]int{}, 0
+	for _, sm := range aggr.Snapshot() {
+		parts := strings.Split(sm.Tags, "|")
+		switch {
+		case sm.Net == 0 && sm.Proto == 200 && len(parts) == 1:
+			gotOK[parts[0]]++
+		case sm.Net == 0 && sm.Proto == 500 && parts[0] == "plain.b":
+			got500++ // reported with the status it received
+		default:
+			gotFail[parts[0]]++
+		}
+	}
+	if d := diffCounts(wantOK, gotOK); d != "" {
+		res.Violate("C15/plain/samples-ok", "successful samples per step (want vs got): "+d, cs)
+	}
+	if d := diffCounts(wantFail, gotFail); d != "" {
+		res.Violate("C15/plain/samples-failed", "failed samples per step (want vs got): "+d, cs)
+	}
+	if want500 := (shots + len(kinds) - 2) / len(kinds); got500 != want500 {
+		res.Violate("C15/plain/samples-status", fmt.Sprintf("%d answers with status 500 to step b, %d samples of step b carrying 500", want500, got500), cs)
+	}
+	res.Eval(fmt.Sprint("plain", instances, shots), true)
+}
+
 func main() {
 	vkit.Fs()
 	res := vkit.NewResult("generated HTTP scenario descriptions (1–3 weighted scenarios, request lists with name, name(n), name(n, ms), sleep(ms), min_waiting_time, csv and variables sources, [next] row mapping, values captured with var/jsonpath and var/header flowing into URI, headers and body of later steps, assert/response on every step, optional always-failing template) × scripted target failures per (shot, position) ∈ {status contradicting the assertion, dropped connection, unparsable JSON, empty body} × 1 or 4 instances; distinct = distinct (description, failure plan); non-trivial = at least one shot fully judged")
@@ -820,6 +976,8 @@ func main() {
 		}
 		runCase(res, genCase(rng, inst), i)
 	}
+	plainSteps(res, 1, 20)
+	plainSteps(res, 4, vkit.N(40, 400))
 	nextFirstAccess(res, vkit.N(2500, 40000))
 	nextNestedPaths(res)
 	vkit.CheckRaceLog(res, "C15")
